@@ -37,3 +37,69 @@ pub fn par_map<T: Send, F: Fn(usize) -> T + Sync>(n: usize, f: F) -> Vec<T> {
     v.sort_by_key(|(i, _)| *i);
     v.into_iter().map(|(_, t)| t).collect()
 }
+
+/// Like `par_map`, with a generous wall-clock watchdog: if one case runs longer than `limit_s`
+/// seconds, `on_stall(index)` is called (typically: save the input, report *inconclusive*) and the
+/// process exits with status 2.  A watchdog firing is never a violation by itself.
+pub fn par_map_watch<T: Send, F: Fn(usize) -> T + Sync, G: Fn(usize) + Sync>(
+    n: usize,
+    limit_s: u64,
+    on_stall: G,
+    f: F,
+) -> Vec<T> {
+    use std::sync::atomic::AtomicU64;
+    let nw = workers().min(n.max(1));
+    let cur: Vec<(AtomicUsize, AtomicU64)> =
+        (0..nw).map(|_| (AtomicUsize::new(usize::MAX), AtomicU64::new(0))).collect();
+    let done = std::sync::atomic::AtomicBool::new(false);
+    let t0 = std::time::Instant::now();
+    let next = AtomicUsize::new(0);
+    let out: Mutex<Vec<(usize, T)>> = Mutex::new(Vec::with_capacity(n));
+    std::thread::scope(|s| {
+        s.spawn(|| {
+            while !done.load(Ordering::Relaxed) {
+                std::thread::sleep(std::time::Duration::from_millis(500));
+                let now = t0.elapsed().as_secs();
+                for (idx, since) in cur.iter() {
+                    let i = idx.load(Ordering::Relaxed);
+                    let st = since.load(Ordering::Relaxed);
+                    if i != usize::MAX && now.saturating_sub(st) > limit_s {
+                        on_stall(i);
+                        std::process::exit(2);
+                    }
+                }
+            }
+        });
+        let mut handles = Vec::new();
+        for w in 0..nw {
+            let cur = &cur;
+            let next = &next;
+            let out = &out;
+            let f = &f;
+            handles.push(s.spawn(move || {
+                let mut local = Vec::new();
+                loop {
+                    let i = next.fetch_add(1, Ordering::Relaxed);
+                    if i >= n {
+                        break;
+                    }
+                    cur[w].1.store(t0.elapsed().as_secs(), Ordering::Relaxed);
+                    cur[w].0.store(i, Ordering::Relaxed);
+                    local.push((i, f(i)));
+                    cur[w].0.store(usize::MAX, Ordering::Relaxed);
+                    if local.len() >= 64 {
+                        out.lock().unwrap().append(&mut local);
+                    }
+                }
+                out.lock().unwrap().append(&mut local);
+            }));
+        }
+        for h in handles {
+            let _ = h.join();
+        }
+        done.store(true, Ordering::Relaxed);
+    });
+    let mut v = out.into_inner().unwrap();
+    v.sort_by_key(|(i, _)| *i);
+    v.into_iter().map(|(_, t)| t).collect()
+}
